@@ -398,3 +398,85 @@ Proof. intros ND R1 R2.
 (* ---------- gauge discipline: every two-qubit gate finds the state right-canonical ---------- *)
 Theorem gauge_discipline ex : forallb (fun b => b) (gauge_run true (gauge_word ex)) = true.
 Proof. unfold gauge_word. induction ex as [|i ex IH]; simpl; [reflexivity|]. destruct (is_kind G2 i); simpl; exact IH. Qed.
+
+
+(* ---------- the whole trajectory: every gate AND every read (observables at the start, at each labelled barrier, at the end;
+   measure_shots in weak mode) finds the orthogonality centre at site 0, in all three modes ---------- *)
+Fixpoint gauge_final (at0 : bool) (w : list gstep) : bool :=
+  match w with
+  | [] => at0
+  | GOne :: r => gauge_final at0 r
+  | GTwo :: r => gauge_final false r
+  | GRestore :: r => gauge_final true r
+  | GRead :: r => gauge_final at0 r
+  end.
+Definition all_ok (l : list bool) := forallb (fun b => b) l.
+Lemma gauge_run_app at0 w1 w2 : gauge_run at0 (w1 ++ w2) = gauge_run at0 w1 ++ gauge_run (gauge_final at0 w1) w2.
+Proof. revert at0. induction w1 as [|g w1 IH]; intros at0; [reflexivity|]. destruct g; simpl; rewrite IH; reflexivity. Qed.
+Lemma gauge_final_app at0 w1 w2 : gauge_final at0 (w1 ++ w2) = gauge_final (gauge_final at0 w1) w2.
+Proof. revert at0. induction w1 as [|g w1 IH]; intros at0; [reflexivity|]. destruct g; simpl; apply IH. Qed.
+Lemma all_ok_app a b : all_ok (a ++ b) = all_ok a && all_ok b.
+Proof. unfold all_ok. apply forallb_app. Qed.
+Definition good (w : list gstep) := all_ok (gauge_run true w) = true /\ gauge_final true w = true.
+Lemma good_nil : good []. Proof. split; reflexivity. Qed.
+Lemma good_app w1 w2 : good w1 -> good w2 -> good (w1 ++ w2).
+Proof. intros (A1 & F1) (A2 & F2). split.
+  - rewrite gauge_run_app, all_ok_app, F1, A1, A2. reflexivity.
+  - rewrite gauge_final_app, F1. exact F2. Qed.
+Lemma good_gates ex : good (gauge_word ex).
+Proof. unfold gauge_word. induction ex as [|i ex IH]; [apply good_nil|]. cbn [flat_map].
+  apply good_app; [|exact IH]. destruct (is_kind G2 i); split; reflexivity. Qed.
+Lemma good_reads {A} (l : list A) : good (map (fun _ => GRead) l).
+Proof. induction l as [|x l IH]; [apply good_nil|]. change (good ([GRead] ++ map (fun _ => GRead) l)). apply good_app; [split; reflexivity|exact IH]. Qed.
+Lemma good_iter sampling rem : good (fst (fst (iter_g sampling rem))).
+Proof. unfold iter_g. cbn [fst]. apply good_app; [apply good_gates|]. destruct sampling; [apply good_reads|apply good_nil]. Qed.
+Lemma good_run sampling fuel : forall rem w lost, run_g sampling fuel rem = Some (w, lost) -> good w.
+Proof. induction fuel as [|f IH]; intros rem w lost R.
+  - destruct rem; simpl in R; [|discriminate]. inversion R. apply good_nil.
+  - destruct rem as [|i0 r0]; [simpl in R; inversion R; apply good_nil|].
+    cbn [run_g] in R. pose proof (good_iter sampling (i0 :: r0)) as GI.
+    destruct (iter_g sampling (i0 :: r0)) as [[w1 fl] rem'] eqn:EI. cbn [fst] in GI.
+    destruct (run_g sampling f rem') as [[w' fl']|] eqn:ER; [|discriminate]. inversion R; subst.
+    apply good_app; [exact GI|]. exact (IH _ _ _ ER). Qed.
+Theorem trajectory_gauge m c w : traj_word m c = Some w -> all_ok (gauge_run true w) = true.
+Proof. unfold traj_word. destruct (run_g (samples m) (length c) c) as [[w0 lost]|] eqn:R; [|discriminate].
+  intros E. inversion E; subst. pose proof (good_run _ _ _ _ _ R) as G.
+  assert (GT : good (match m with Weak => [GRead] | _ => (if lost then [GRestore] else []) ++ [GRead] end))
+    by (destruct m, lost; split; reflexivity).
+  assert (GH : good (if samples m then [GRead] else [])) by (destruct (samples m); split; reflexivity).
+  exact (proj1 (good_app _ _ GH (good_app _ _ G GT))). Qed.
+
+(* run_g is run with the gauge steps written out: same remaining lists, hence same termination; its non-read steps are the
+   gauge word of the executed gates *)
+Lemma iter_g_rem sampling rem : snd (iter_g sampling rem) = snd (iter sampling rem).
+Proof. reflexivity. Qed.
+Lemma filter_no_read_gates ex : filter no_read (gauge_word ex) = gauge_word ex.
+Proof. unfold gauge_word. induction ex as [|i ex IH]; [reflexivity|]. cbn [flat_map]. rewrite filter_app, IH.
+  destruct (is_kind G2 i); reflexivity. Qed.
+Lemma filter_no_read_reads {A} (l : list A) : filter no_read (map (fun _ => GRead) l) = [].
+Proof. induction l as [|x l IH]; [reflexivity|exact IH]. Qed.
+Lemma gauge_word_app a b : gauge_word (a ++ b) = gauge_word a ++ gauge_word b.
+Proof. unfold gauge_word. apply flat_map_app. Qed.
+Theorem run_g_refines_run sampling fuel : forall rem ex ev, run sampling fuel rem = Some (ex, ev) ->
+  exists w lost, run_g sampling fuel rem = Some (w, lost) /\ filter no_read w = gauge_word ex.
+Proof. induction fuel as [|f IH]; intros rem ex ev R.
+  - destruct rem; simpl in R; [|discriminate]. inversion R. exists [], false. split; reflexivity.
+  - destruct rem as [|i0 r0]; [simpl in R; inversion R; exists [], false; split; reflexivity|].
+    cbn [run] in R. cbn [run_g].
+    unfold iter in R. unfold iter_g.
+    set (layer := front (i0 :: r0)) in *.
+    set (dropped := filter (fun i => is_kind Meas i || is_kind Bar i) layer) in *.
+    set (singles := sort_by (filter (is_kind G1) layer)) in *.
+    set (evens := sort_by (filter (fun i => is_kind G2 i && is_even i) layer)) in *.
+    set (odds := sort_by (filter (fun i => is_kind G2 i && negb (is_even i)) layer)) in *.
+    set (sb := filter (is_kind SBar) layer) in *.
+    set (rem' := remove_all (dropped ++ (singles ++ evens ++ odds) ++ sb) (i0 :: r0)) in *.
+    destruct (run sampling f rem') as [[ex' ev']|] eqn:ER; [|discriminate]. inversion R; subst.
+    destruct (IH _ _ _ ER) as (w' & lost' & RG & FW). rewrite RG.
+    eexists _, _. split; [reflexivity|].
+    rewrite (gauge_word_app (singles ++ evens ++ odds) ex'), !filter_app, filter_no_read_gates, FW.
+    destruct sampling; [rewrite filter_no_read_reads|]; cbn [filter]; rewrite app_nil_r; reflexivity. Qed.
+Theorem traj_word_terminates m c : traj_word m c <> None.
+Proof. unfold traj_word. pose proof (loop_terminates (samples m) (length c) c (le_n _)) as T.
+  destruct (run (samples m) (length c) c) as [[ex ev]|] eqn:R; [|contradiction].
+  destruct (run_g_refines_run _ _ _ _ _ R) as (w & lost & RG & _). rewrite RG. discriminate. Qed.
